@@ -21,7 +21,7 @@ VARIABLE vec
 
 Values == {[t |-> "int", v |-> "-1"], [t |-> "int", v |-> "0"], [t |-> "float", v |-> "0.0"], [t |-> "float", v |-> "-0.0"],
            [t |-> "int", v |-> "1"], [t |-> "float", v |-> "1.0"], [t |-> "bool", v |-> "1"], [t |-> "bool", v |-> "0"],
-           [t |-> "float", v |-> "2.5"], [t |-> "int", v |-> "2"]}
+           [t |-> "float", v |-> "2.5"], [t |-> "int", v |-> "2"], [t |-> "float", v |-> "0.5"]}
 
 Init == vec \in UNION {[1..n -> Values] : n \in 2..MaxN}
 Next == UNCHANGED vec
